@@ -213,6 +213,78 @@ def from_vector_case(ctx, idx, rng):
     ctx.close('from_vector.result-usable', abs(float(np.ldexp(float(n2), -kx)) - np.linalg.norm(dense)), 1e-9 * np.linalg.norm(v0), 'orthonormalize on a from_vector result', detail)
 
 
+def exact_tie_case(ctx, idx, rng):
+    """Tolerance EXACTLY on a cumulative Schmidt weight: spectra with a power-of-two norm placed on a generalised diagonal, so that every QR / SVD factor,
+    every squared weight and every partial sum is exact in binary64 (verified per case on the values the library hands to retained_bond_indices).
+    The rule 'discard while the discarded weight is <= tol' is then decidable without any rounding slack, also AT the threshold."""
+    from fractions import Fraction
+    from .c12 import EXACT_SPECTRA, _exact_ok, exact_count
+    spec = [sp for sp in EXACT_SPECTRA if _exact_ok(sp)]
+    sp = [x for x in spec[idx % len(spec)] if x != 0]
+    k = len(sp)
+    L = int(rng.integers(2, 5))
+    via = ('compress-left', 'compress-right', 'from_vector')[(idx // len(spec)) % 3]
+    perm = rng.permutation(k)
+    order = rng.permutation(k)
+    tot = sum(int(x) ** 2 for x in sp)
+    cum = sorted(set(sum(sorted(int(x) ** 2 for x in sp)[:j]) for j in range(k + 1)))
+    tols = [Fraction(c, tot) for c in cum if 0 < c < tot] + [Fraction(a + b, 2 * tot) for a, b in zip(cum[:-1], cum[1:])]
+    tols = [t for t in tols if Fraction(float(t)) == t and float(t) * L < 1]
+    if not tols:
+        ctx.case(('exact-tie', 'no-representable-tolerance'), nontrivial=False)
+        return
+    t = tols[int(rng.integers(0, len(tols)))]
+    on_weight = t.denominator and (t * tot).denominator == 1 and int(t * tot) in cum
+    scale = float(rng.choice([1.0, 0.25, 8.0]))              # powers of two: exact
+    # psi = sum_i s_i |i>|perm(i)>|0...0>: the only entangled bond is bond 1, hence the first truncated bond of either sweep
+    vec = np.zeros((k, k) + (k,) * (L - 2))
+    for i in range(k):
+        vec[(int(order[i]), int(perm[i])) + (0,) * (L - 2)] = sp[i] * scale * (1 if rng.random() < 0.5 else -1)
+    seen = []
+
+    def around(orig, sv, tol):
+        out = orig(sv, tol)
+        try:
+            seen.append(np.array(sv, dtype=float, copy=True))
+        except Exception:
+            pass
+        return out
+    ctx.case(('exact-tie', via, f'k{k}', f'L{L}', 'on-weight' if on_weight else 'between'), sample={'spectrum': sp, 'L': L, 'tol': float(t), 'via': via},
+             info={'spectrum': sp, 'L': L, 'tol': float(t), 'via': via, 'vector': vec.reshape(-1)})
+    detail = ctx.cur_info
+    with monitor.attached('pytenet.bond_ops.retained_bond_indices', around):
+        if via == 'from_vector':
+            psi = ptn.MPS.from_vector(k, L, vec.reshape(-1), float(t))
+        else:
+            psi = ptn.MPS(np.zeros(k, dtype=int), [np.zeros(D, dtype=int) for D in [1] + [k] + [1] * (L - 1)], fill=0.0)
+            for i in range(k):
+                psi.A[0][int(order[i]), 0, i] = vec[(int(order[i]), int(perm[i])) + (0,) * (L - 2)]
+                psi.A[1][int(perm[i]), i, 0] = 1.0
+            for j in range(2, L):
+                psi.A[j][0, 0, 0] = 1.0
+            psi.compress(float(t), via.split('-')[1])
+    inv = refs.mps_invariant(psi)
+    if not ctx.ok('exact-tie.invariant', inv is None, str(inv), detail):
+        return
+    # exact expectations apply only if the library's own factorisations delivered the spectrum bit for bit (up to a power of two and zeros)
+    want = sorted(float(x) for x in sp)
+    exact = False
+    for sv in seen:
+        nz = np.sort(np.abs(sv[sv != 0]))
+        if len(nz) == k and nz[-1] > 0:
+            r = want[-1] / nz[-1]
+            if np.frexp(r)[0] == 0.5 and np.array_equal(nz * r, np.array(want)):
+                exact = True
+                break
+    if not exact:
+        ctx.skip('exact-tie.kept-count')
+        ctx.event('exact_tie_spectrum_not_bit_exact')
+        return
+    exp = exact_count(sp, t)
+    ctx.ok('exact-tie.kept-count', psi.bond_dims[1] == exp, f'{via}, tol={float(t)} ({"ON" if on_weight else "between"} cumulative weights): bond 1 keeps '
+           f'{psi.bond_dims[1]} Schmidt values, the tolerance rule (discard while the discarded weight is <= tol) prescribes {exp}', detail)
+
+
 def large_case(ctx, idx, rng):
     """compress beyond the dense reach: error identity and bounds through overlaps."""
     from .. import large
@@ -257,14 +329,15 @@ SPEC = {
     'rule': ('compress: states {product, random, flat / staircase / decaying Schmidt spectra (bonds of a canonical state rescaled), over-complete '
              'bonds, charge sectors of XXZ / spin-1 / Bose / encoded Fermi pairs} x L 1..8 x both modes x tolerances {0, grid 1e-14..0.2, on a '
              'cumulative Schmidt weight of the first cut (x(1 +- 1e-9)), close to 1/L}, norms 1e-5..1e5; from_vector: Gaussian, perturbed low-rank / '
-             'product, GHZ vectors, d 2..4, L 1..8. Non-trivial = non-zero state; distinct = (family, spectrum kind, L, mode, tolerance class).'),
+             'product, GHZ vectors, d 2..4, L 1..8; exact ties: spectra with a power-of-two norm on a generalised diagonal (all arithmetic exact, verified per case), tolerance exactly ON and between the cumulative weights, through compress (both modes) and from_vector. Non-trivial = non-zero state; distinct = (family, spectrum kind, L, mode, tolerance class).'),
     'deciding': ['compress.nrm-equals-norm', 'compress.scale-in-range', 'compress.error-identity', 'compress.error-bound', 'compress.unit-norm',
                  'compress.canonical-in-sweep-direction', 'compress.bond-dims-do-not-grow', 'compress.first-bond-kept-count', 'compress.tol0-exact',
-                 'from_vector.error-bound', 'from_vector.tol0-exact'],
+                 'from_vector.error-bound', 'from_vector.tol0-exact', 'exact-tie.kept-count'],
     'workloads': [
         Workload('compress', compress_case, quick=1800, thorough=360000),
         Workload('large', large_case, quick=80, thorough=8000),
         Workload('from-vector', from_vector_case, quick=800, thorough=120000),
+        Workload('exact-ties', exact_tie_case, quick=300, thorough=30000),
     ],
     'shards': {'quick': 1, 'thorough': 16},
     'assumptions': ['dense Schmidt spectrum from numpy.linalg.svd of the unfolded vector; threshold slack 1e-12'],
